@@ -60,6 +60,7 @@ class Ref(object):
         self.divisors = []     # z3 terms that are divisors of / % udiv umod sdiv smod
         self.bugs = bugs       # deliberately wrong variants for must-fail twins
         self.env = None        # optional: (name,size) -> z3 term override
+        self.loc_db = None     # optional LocationDB: locations with a known offset are constants
 
     def var(self, name, size):
         k = (name, size)
@@ -107,6 +108,11 @@ class Ref(object):
         if e.is_id():
             return self.var(e.name, e.size)
         if e.is_loc():
+            off = None
+            if getattr(self, 'loc_db', None) is not None:
+                off = self.loc_db.get_location_offset(e.loc_key)
+            if off is not None:
+                return z3.BitVecVal(off % (1 << e.size), e.size)
             return self.var("loc_%s" % e.loc_key.key, e.size)
         if e.is_slice():
             return z3.Extract(e.stop - 1, e.start, self.tr(e.arg))
